@@ -197,6 +197,12 @@ class _W:
                     out.append(f'<beam xml:id="{self.xid("b")}">{inner}</beam>')
                     i = j + 1
                     continue
+            if (ev["k"] == "s" and i == n - 1 and not ev.get("tu") and self.o.get("bare_space") and not self.o.get("durppq")
+                    and sum((N.value(e) for e in evs if e["k"] not in ("g", "m")), F(0)) == nominal and self.rng.random() < 0.7):
+                out.append(f'<space xml:id="{ev["id"]}"/>')
+                self.bare_spaces = getattr(self, "bare_spaces", 0) + 1
+                i += 1
+                continue
             out.append(self.event(ev, nominal))
             i += 1
         a = {"xml:id": self.xid("ly")}
